@@ -8,7 +8,7 @@ From Osmo Require Import Base.DecModel CL.TickMath CL.CLMath CL.CLPool CL.CLSwap
   CLR.Accum CLR.Rewards CLR.RSwap CLR.RStep C07.Base C07.TickLemmas C07.LP C07.Swap C07.Proofs C03.Steps
   C08.Proj C08.Telescope C08.View C08.Static C08.Stages C08.Ops C08.OpInside C08.SwapTrace C08.Crux
   C08.Claim C08.Conseq C08.Frame C08.Never C08.SwapWf C08.Dom C08.StaticOk C08.Paid C08.PaidOps
-  C08.IncAcc C08.Inc C08.IncList C08.IncStage.
+  C08.PaidSwap C08.PaidHist C08.IncAcc C08.Inc C08.IncList C08.IncStage.
 Open Scope Z_scope.
 
 Definition PII (rs : rstate) : Prop :=
@@ -406,4 +406,154 @@ Proof.
     set (o2 := OwedI d w2 cur P) in *. set (o2' := OwedI d w2 cur P') in *. set (o3 := OwedI d w3 cur P') in *.
     set (cd := pr_sel d col) in *. set (fd := pr_sel d fpaid) in *. set (bd := pr_sel d bal) in *. set (nu := Z.of_nat NU) in *.
     clearbody o0 r0 o1 r1 o1a r1a o1b r1b ou ru o2 o2' o3 cd fd bd isc nu. nia.
+Qed.
+
+(* ---------- operations that do not touch the incentive bookkeeping ---------- *)
+Lemma owedU_same : forall u d w w' cur p, rw_up w' = rw_up w -> rw_tt w' = rw_tt w -> owedU u d w' cur p = owedU u d w cur p.
+Proof.
+  intros u d w w' cur p UP TT. unfold owedU, acc_u, insU. rewrite UP. rewrite (view_same (CU u d) w w' cur dc0 TT); [reflexivity|].
+  unfold sel_G. rewrite UP. reflexivity.
+Qed.
+
+Lemma inc_same : forall rs rs' d, PII rs -> RInv rs' ->
+  s_pos (r_base rs') = s_pos (r_base rs) -> s_pool (r_base rs') = s_pool (r_base rs) -> s_next_id (r_base rs') = s_next_id (r_base rs) ->
+  b_inc (s_bank (r_base rs')) = b_inc (s_bank (r_base rs)) ->
+  rw_up (r_rw rs') = rw_up (r_rw rs) -> rw_tt (r_rw rs') = rw_tt (r_rw rs) -> rw_recs (r_rw rs') = rw_recs (r_rw rs) ->
+  rw_inc_scaling (r_rw rs') = rw_inc_scaling (r_rw rs) ->
+  PII rs' /\ isc_of rs' = isc_of rs /\ PhiI d rs' = PhiI d rs.
+Proof.
+  intros rs rs' d [RI [[OK [Hi [LN [HPT HRM]]]] FR]] RI' SP PL NX BI UP TT RC IS.
+  split; [|split].
+  - split; [exact RI'|]. split.
+    + split; [rewrite RC; exact OK|]. split; [rewrite IS; exact Hi|]. split; [rewrite UP; exact LN|]. split; [apply PI_PT; exact RI'|].
+      intros u p Hu Hp. rewrite SP in Hp. unfold acc_u. rewrite UP. apply HRM; assumption.
+    + intros u j Hj. unfold acc_u. rewrite UP. apply FR. rewrite <- NX. exact Hj.
+  - unfold isc_of. exact IS.
+  - unfold PhiI, OwedInc, inc_bal, isc_of, cur_tick. rewrite SP, PL, BI, RC, IS. f_equal. f_equal. f_equal.
+    apply OwedI_ext. intros u p _ _. apply owedU_same; assumption.
+Qed.
+
+(* ---------- CollectIncentives of one live position ---------- *)
+Lemma inc_collect_one : forall rs id q b w col forf byup d, PII rs ->
+  pos_get (s_pos (r_base rs)) id = Some q ->
+  collect_incentives (s_bank (r_base rs)) (r_rw rs) (p_tick (s_pool (r_base rs))) (p_liq (s_pool (r_base rs))) (s_time (r_base rs)) q = Some (b, w, col, forf, byup) ->
+  let rs' := mkRS (set_bank (r_base rs) b) w in
+  PII rs' /\ isc_of rs' = isc_of rs /\ PhiI d rs' <= PhiI d rs + Z.of_nat NU * P18.
+Proof.
+  intros rs id q b w col forf byup d [RI [HIW FR]] Q E rs'. pose proof RI as [I [D S]]. pose proof P18_pos as HP.
+  destruct (collect_incentives_parts _ _ _ _ _ _ _ _ _ _ _ E) as [PC [BC _]].
+  assert (QI : ps_id q = id) by (eapply pos_get_id; exact Q). rewrite QI in PC.
+  set (cur := p_tick (s_pool (r_base rs))) in *. set (P := s_pos (r_base rs)) in *.
+  assert (OS : ids_sorted P) by apply (inv_pos_sorted _ I).
+  assert (LP : forall p, In p P -> 0 < ps_liq p).
+  { intros p Hp. pose proof (inv_pos_ok _ I) as F. rewrite Forall_forall in F. destruct (F p Hp) as [_ [X _]]. exact X. }
+  destruct (stage_inc_claim d _ cur _ _ id (ps_join q) w col forf byup P q PC HIW (inv_liq _ I) Q OS LP)
+    as [T [T0 [INA [C0 [F0 [B0 [RD [FO [IW1 [TT1 [SP1 [IS1 [NI1 [RG1 [LB BN]]]]]]]]]]]]]]].
+  assert (RI' : RInv rs').
+  { split; [eapply inv_same_but_bank; [apply same_but_bank_set|exact I]|].
+    split; [intro j; simpl; rewrite TT1; apply D|unfold tt_sorted; simpl; rewrite TT1; exact S]. }
+  split; [|split; [exact IS1|]].
+  - split; [exact RI'|]. split; [exact IW1|]. intros u j Hj. simpl in Hj.
+    assert (j <> id). { pose proof (inv_pos_ok _ I) as F. rewrite Forall_forall in F. destruct (F q (pos_get_in _ _ _ Q)) as [[_ X] _]. lia. }
+    simpl. rewrite (RG1 u j H). apply FR. exact Hj.
+  - unfold PhiI, OwedInc, inc_bal, isc_of, cur_tick, rs', set_bank. cbn [r_base r_rw s_bank s_pool s_pos]. fold P cur. rewrite IS1, BC.
+    set (bal := b_inc (s_bank (r_base rs))) in *.
+    assert (BD : pr_sel d (fst bal - fst col, snd bal - snd col) = pr_sel d bal - pr_sel d col) by (destruct d; reflexivity).
+    rewrite BD. set (isc := rw_inc_scaling (r_rw rs)) in *.
+    set (o1 := OwedI d w cur P) in *. set (o0 := OwedI d (r_rw rs) cur P) in *. set (r1 := remD d (rw_recs w)) in *. set (r0 := remD d (rw_recs (r_rw rs))) in *.
+    set (cd := pr_sel d col) in *. set (bd := pr_sel d bal) in *. set (lb := lsum byup d) in *. set (nu := Z.of_nat NU) in *.
+    clearbody o1 o0 r1 r0 cd bd lb isc nu. nia.
+Qed.
+
+Lemma inc_collect_loop : forall ids rs owner col forf rs' c d, PII rs ->
+  r_collect_inc_loop rs owner ids col forf = Some (rs', c) ->
+  PII rs' /\ isc_of rs' = isc_of rs /\ PhiI d rs' <= PhiI d rs + Z.of_nat (length ids) * (Z.of_nat NU * P18).
+Proof.
+  induction ids as [|id rest IH]; intros rs owner col forf rs' c d HP H; simpl in H.
+  - inversion H; subst. split; [exact HP|]. split; [reflexivity|]. simpl. lia.
+  - destruct (pos_get (s_pos (r_base rs)) id) as [q|] eqn:Q; [|discriminate H].
+    destruct (negb (ps_owner q =? owner)); [discriminate H|].
+    destruct (collect_incentives _ _ _ _ _ q) as [[[[[b w] x] f] byup]|] eqn:E; [|discriminate H].
+    destruct (inc_collect_one rs id q b w x f byup d HP Q E) as [P1 [S1 F1]]. cbv zeta in P1, S1, F1.
+    destruct (IH _ _ _ _ _ _ d P1 H) as [P2 [S2 F2]].
+    split; [exact P2|]. split; [rewrite S2; exact S1|].
+    change (length (id :: rest)) with (S (length rest)). rewrite Nat2Z.inj_succ. pose proof P18_pos. nia.
+Qed.
+
+(* ---------- CreateIncentive ---------- *)
+Lemma remD_app : forall d l r, remD d (l ++ [r]) = remD d l + (if den_match d r then ir_remaining r else 0).
+Proof. induction l as [|a l IH]; intro r; simpl; [lia|]. rewrite IH. lia. Qed.
+
+Lemma inc_incentive : forall rs sender denom amount rate dt uu rs' d, PII rs ->
+  r_incentive rs sender denom amount rate dt uu = Some rs' ->
+  PII rs' /\ isc_of rs' = isc_of rs /\ PhiI d rs' <= PhiI d rs.
+Proof.
+  intros rs sender denom amount rate dt uu rs' d [RI [HIW FR]] E. pose proof RI as [I [D S]]. pose proof P18_pos as HP.
+  unfold r_incentive in E.
+  destruct (negb (0 <? amount)) eqn:EA; [discriminate E|]. apply negb_false_iff, Z.ltb_lt in EA.
+  destruct (dt <? 0); [discriminate E|].
+  destruct (negb (0 <? rate)) eqn:ER; [discriminate E|]. apply negb_false_iff, Z.ltb_lt in ER.
+  destruct ((uu <? 0) || (Z.of_nat n_uptimes <=? uu)); [discriminate E|].
+  destruct (user_bal _ sender) as [ub|]; [|discriminate E]. cbv beta iota in E.
+  destruct (dc_get denom ub <? amount); [discriminate E|].
+  destruct (update_uptime _ _ _) as [w1|] eqn:EU; [|discriminate E]. cbv beta iota in E.
+  destruct (send_user_to_inc _ _ _ _) as [b|] eqn:EB; [|discriminate E]. inversion E; subst rs'. clear E.
+  destruct HIW as [OK [Hi [LN [HPT HRM]]]].
+  set (cur := p_tick (s_pool (r_base rs))) in *. set (P := s_pos (r_base rs)) in *.
+  destruct (stage_accrue cur _ _ _ w1 P d EU OK Hi LN HPT HRM (inv_liq _ I)) as [A1 [PT1 [RM1 [OK1 [TT1 [SP1 [IS1 [LN1 [NI1 RG1]]]]]]]]].
+  set (rnew := mkIR (rw_next_inc w1) uu denom (d_from_int amount) rate (s_time (r_base rs) + dt)).
+  set (w2 := add_incentive_record w1 uu denom amount rate (s_time (r_base rs) + dt)).
+  assert (BI : b_inc b = (fst (b_inc (s_bank (r_base rs))) + fst (dc_one denom amount), snd (b_inc (s_bank (r_base rs))) + snd (dc_one denom amount))).
+  { unfold send_user_to_inc in EB. destruct ((_ <? 0) || (_ <? 0)); [discriminate EB|].
+    destruct (user_bal (s_bank (r_base rs)) sender) as [[u0 u1]|]; [|discriminate EB]. simpl in EB.
+    destruct ((u0 <? _) || (u1 <? _)); [discriminate EB|]. destruct (b_inc (s_bank (r_base rs))) as [p0 p1]. inversion EB; subst. reflexivity. }
+  assert (RI' : RInv (mkRS (set_bank (r_base rs) b) w2)).
+  { split; [eapply inv_same_but_bank; [apply same_but_bank_set|exact I]|].
+    split; [intro j; simpl; rewrite TT1; apply D|unfold tt_sorted; simpl; rewrite TT1; exact S]. }
+  assert (OW2 : OwedI d w2 cur P = OwedI d w1 cur P) by (apply OwedI_ext; intros u p _ _; apply owedU_same; reflexivity).
+  split; [|split; [exact IS1|]].
+  - split; [exact RI'|]. split.
+    + split.
+      * unfold w2, add_incentive_record. simpl. apply Forall_app. split; [exact OK1|]. constructor; [|constructor].
+        split; simpl; [exact ER|unfold d_from_int; nia].
+      * split; [simpl; rewrite IS1; exact Hi|]. split; [exact LN1|]. split; [intros p Hp; apply PT1; exact Hp|].
+        intros u p Hu Hp. apply RM1; assumption.
+    + intros u j Hj. simpl in *. change (acc_u u w2) with (acc_u u w1). rewrite RG1. apply FR. exact Hj.
+  - unfold PhiI, OwedInc, inc_bal, isc_of, cur_tick, set_bank. cbn [r_base r_rw s_bank s_pool s_pos]. fold P cur. rewrite OW2, BI.
+    change (rw_recs w2) with (rw_recs w1 ++ [rnew]). rewrite remD_app. change (rw_inc_scaling w2) with (rw_inc_scaling w1). rewrite IS1.
+    set (bal := b_inc (s_bank (r_base rs))) in *.
+    assert (BD : pr_sel d (fst bal + fst (dc_one denom amount), snd bal + snd (dc_one denom amount)) = pr_sel d bal + dsel d (dc_one denom amount)) by (destruct d; reflexivity).
+    rewrite BD, dsel_one. unfold den_match, rnew. cbn [ir_denom ir_remaining]. unfold d_from_int.
+    set (isc := rw_inc_scaling (r_rw rs)) in *. set (o1 := OwedI d w1 cur P) in *. set (o0 := OwedI d (r_rw rs) cur P) in *.
+    set (r1 := remD d (rw_recs w1)) in *. set (r0 := remD d (rw_recs (r_rw rs))) in *. set (bd := pr_sel d bal) in *.
+    destruct (Bool.eqb d (negb (denom =? 0))); clearbody o1 o0 r1 r0 bd isc; nia.
+Qed.
+
+(* ---------- TransferPositions ---------- *)
+Lemma inc_transfer : forall rs sender ids recipient s' d, PII rs ->
+  transfer_positions (r_base rs) sender ids recipient = Some s' ->
+  PII (mkRS s' (r_rw rs)) /\ isc_of (mkRS s' (r_rw rs)) = isc_of rs /\ PhiI d (mkRS s' (r_rw rs)) = PhiI d rs.
+Proof.
+  intros rs sender ids recipient s' d [RI [[OK [Hi [LN [HPT HRM]]]] FR]] E. pose proof RI as [I _].
+  assert (RI' : RInv (mkRS s' (r_rw rs))).
+  { apply (rinv_handler rs (RBase (OTransfer sender ids recipient)) _ []); [simpl; rewrite E; reflexivity|exact RI]. }
+  destruct (transfer_positions_spec _ _ _ _ _ I E) as [I' [NX [_ [PL [_ PG]]]]].
+  unfold transfer_positions in E. destruct (sender =? recipient); [discriminate E|].
+  destruct (negb (z_nodup ids)); [discriminate E|].
+  assert (T : transfer_loop (r_base rs) ids sender recipient = Some s') by (destruct ids; [discriminate E|exact E]).
+  split; [|split; [reflexivity|]].
+  - split; [exact RI'|]. split.
+    + split; [exact OK|]. split; [exact Hi|]. split; [exact LN|]. split; [apply PI_PT; exact RI'|].
+      intros u p Hu Hp. simpl in Hp. simpl.
+      pose proof (in_pos_get _ _ (inv_pos_sorted _ I') Hp) as G. destruct PG as [PG _]. rewrite PG in G.
+      destruct (pos_get (s_pos (r_base rs)) (ps_id p)) as [q|] eqn:Q; [|discriminate G].
+      pose proof (pos_get_in _ _ _ Q) as Qin. pose proof (pos_get_id _ _ _ Q) as Qid. destruct (HRM u q Hu Qin) as [r [R [SS UN]]].
+      exists r. rewrite <- Qid. split; [exact R|]. split; [|exact UN]. rewrite SS.
+      destruct (z_mem (ps_id p) ids); inversion G; subst; reflexivity.
+    + intros u j Hj. simpl in *. apply FR. rewrite <- NX. exact Hj.
+  - unfold PhiI, OwedInc, inc_bal, isc_of, cur_tick. simpl. rewrite PL.
+    assert (A : OwedI d (r_rw rs) (p_tick (s_pool (r_base rs))) (s_pos s') = OwedI d (r_rw rs) (p_tick (s_pool (r_base rs))) (s_pos (r_base rs))).
+    { unfold OwedI. apply usum_ext. intros u _.
+      destruct (transfer_loop_zsum (owedU u d (r_rw rs) (p_tick (s_pool (r_base rs)))) (fun q o => eq_refl) _ _ _ _ _ I T) as [X _]. exact X. }
+    destruct (transfer_loop_zsum ps_liq (fun q o => eq_refl) _ _ _ _ _ I T) as [_ B0]. rewrite A, B0. reflexivity.
 Qed.
